@@ -286,6 +286,7 @@ PROPS = {
         jobs=[
             J("par2", "C13_truncate_index", bound="index file cut at every length 0..len; data present or missing"),
             J("par2", "C13_truncate_volume", bound="volume file cut at every length"),
+            J("par2", "C16_locmap", must_reach=["hit"], bound="the real checksumShardLocationMap.put/get with 2..3 registered slices of 8 symbolic bytes, arbitrary (data-independent) 32-bit CRC values incl. equal CRCs with different content, one symbolic query window"),
             J("par2", "C13_big_truncate", bound="one protected file of 16388 concrete bytes, slice size 8192, 1 block; the data file cut to 0, 1, 8191, 8192, 16383, 16384, 16385, 16387 bytes, or one byte changed in place at offset 0, 16383, 16384, 16387"),
             J("par2", "C13_damage_after_verify", bound="Verify of the intact set, then one byte flipped inside the recovery packet body, Verify and Repair again in the same process"),
             J("par2", "C13_truncate_data", bound="data file of 9 bytes cut at every length"),
